@@ -2,7 +2,8 @@
 through the public API, so every generated case can be written out and replayed.
 
 spec = {"n": name, "c": content, "t": tail, "a": {attr: val}, "x": {extras}, "ns": {prefix: uri},
-        "p": prefix, "k": [child specs]}          (all keys but "n" optional)
+        "p": prefix, "lns": {prefix: uri declared after the children exist}, "rns": [prefixes removed from the finished
+        subtree], "k": [child specs]}          (all keys but "n" optional)
 """
 import heapq
 
@@ -34,6 +35,8 @@ def build(sp, parent=None, index=None):
         build(c, n)
     for k, v in sp.get("lns", {}).items():   # namespaces declared after the subtree exists
         n.add_namespace(k, v)
+    for k in sp.get("rns", []):              # prefixes taken out of this subtree again (it then lacks what its parent has)
+        n.remove_namespace(k)
     return n
 
 
@@ -382,6 +385,8 @@ def _draw_node(draw):
         sp["ns"] = draw(_ns_decl)
         if sp["ns"] and flags & 2:
             sp["p"] = sorted(sp["ns"])[0]
+    elif flags & 128 and draw(st.booleans()):
+        sp["rns"] = [draw(st.sampled_from(["p", "q", "eml"]))]
     return sp
 
 
@@ -426,6 +431,8 @@ def _copy(sp):
             out[k] = dict(out[k])
     if "k" in out:
         out["k"] = [_copy(c) for c in out["k"]]
+    if "rns" in out:
+        out["rns"] = list(out["rns"])
     return out
 
 
